@@ -247,7 +247,12 @@ ORDERS = {
     "seeded": None,
 }
 
-KINDS = {"ML": (2, 0x00), "BASIC": (0, 0x00), "ASCII": (1, 0xFF)}
+# (file type, ASCII flag) of each kind; the framing follows the TYPE first: type 2 is header + data + trailer whatever the flag says,
+# otherwise flag $FF means no framing, otherwise the 3-byte BASIC header
+KINDS = {"ML": (2, 0x00), "BASIC": (0, 0x00), "ASCII": (1, 0xFF), "ML-FF": (2, 0xFF), "T1-00": (1, 0x00), "T3-FF": (3, 0xFF), "T3-00": (3, 0x00),
+         "T0-FF": (0, 0xFF)}
+AMBLE = {k: ((5, 5) if ft == 2 else (0, 0) if dt == 0xFF else (3, 0)) for k, (ft, dt) in KINDS.items()}
+EXTRA_KINDS = ("ML-FF", "T1-00", "T3-FF", "T3-00", "T0-FF")
 
 
 def _seeded_order(seed):
@@ -280,6 +285,12 @@ class DiskLayout:
                         continue
                     if tier == "thorough" and order in ("evenodd", "seeded") and not (L < 41 or L % 2304 <= 15 or L % 2304 >= 2304 - 15):
                         continue          # chain shapes matter where the stream crosses a granule boundary
+                    out.append({"id": "write/%s/len%d/%s" % (kind, L, order), "k": "write", "kind": kind, "len": L, "order": order,
+                                "bounded": "%s file of %d bytes, fill order %s" % (kind, L, order)})
+        # every (type, ASCII flag) combination, at lengths around the first granule boundary of each framing
+        for kind in EXTRA_KINDS:
+            for L in ((0, 5, 2294, 2301, 2304) if tier == "quick" else (0, 1, 5, 255, 2293, 2294, 2295, 2300, 2301, 2302, 2303, 2304, 2305, 4603, 7000)):
+                for order in (("default", "reversed") if tier == "quick" else ("default", "reversed", "cross")):
                     out.append({"id": "write/%s/len%d/%s" % (kind, L, order), "k": "write", "kind": kind, "len": L, "order": order,
                                 "bounded": "%s file of %d bytes, fill order %s" % (kind, L, order)})
         for shape in ("two-files", "three-kinds", "fragmented"):
@@ -440,7 +451,7 @@ class DiskLayout:
         o = self._order(order)
         if o is not None:
             kw["granule_fill_order"] = o
-        sigpfx = "write/%s/len%%2304=%d/%s" % (kind, (L + (10 if kind == "ML" else 3 if kind == "BASIC" else 0)) % 2304, order)
+        sigpfx = "write/%s/len%%2304=%d/%s" % (kind, (L + sum(AMBLE[kind])) % 2304, order)
         d = F.new(DSK, "DiskFile", **kw)
         try:
             F.method(d, "add_files", [f])
@@ -454,7 +465,7 @@ class DiskLayout:
         if native:
             sigpfx = sigpfx + "/" + self._features(image, [w])
         fs = self._check_image(env, image, [w], native, sigpfx)
-        T = L + (10 if kind == "ML" else 3 if kind == "BASIC" else 0)
+        T = L + sum(AMBLE[kind])
         mn = max(1, -(-T // 2304))
         used = self._granules_used(image)
         env.ensure("C15:granules-used", used == mn or (T % 2304 == 0 and used == mn + 1), ("C15",),
@@ -495,7 +506,7 @@ class DiskLayout:
         load, exe = 0x2000, 0x2010
         image = db.build([("FOREIGN", "BIN", ftype, dtype, load, exe, data)], order=self._order(order))
         w = ("FOREIGN", "BIN", ftype, dtype, load, exe, data)
-        T = L + (10 if kind == "ML" else 3 if kind == "BASIC" else 0)
+        T = L + sum(AMBLE[kind])
         sigpfx = "foreign/%s/len%%2304=%d/%s" % (kind, T % 2304, order)
         if native:
             sigpfx = sigpfx + "/" + self._features(image, [w])
